@@ -17,6 +17,7 @@ import (
 	"strings"
 
 	pipeline "github.com/buildkite/go-pipeline"
+	"github.com/buildkite/go-pipeline/ordered"
 	"github.com/buildkite/go-pipeline/jwkutil"
 	"github.com/buildkite/go-pipeline/signature"
 	"github.com/lestrrat-go/jwx/v2/jwa"
@@ -181,6 +182,21 @@ func matrixShape(name string) *pipeline.Matrix {
 		// same leftover fields - one of them NAMED `setup` - but different real setups
 		return &pipeline.Matrix{Setup: pipeline.MatrixSetup{"": {"a", map[string]string{"shadow_a": "b", "shadow_b": "c"}[name]}},
 			RemainingFields: map[string]any{"setup": []any{"x"}, "note": "n"}}
+	case "adj_tomb_v", "adj_tomb_w":
+		// an ordered map (as the parser leaves under an adjustment's extra keys) that has been edited through its API:
+		// slot 0 is a tombstone; the two shapes differ in the LAST live pair only
+		om := ordered.NewMap[string, any](0)
+		om.Set("dropped", 0)
+		om.Set("exit_status", 1)
+		om.Set("signal", map[string]string{"adj_tomb_v": "v", "adj_tomb_w": "w"}[name])
+		om.Delete("dropped")
+		return adj("z", nil, map[string]any{"soft_fail": []any{om}})
+	case "anon_plus_a", "anon_plus_b":
+		// the anonymous dimension together with a named one; the shapes differ in the NAMED dimension only
+		return &pipeline.Matrix{Setup: pipeline.MatrixSetup{"": {"a", "b"}, "os": {map[string]string{"anon_plus_a": "linux", "anon_plus_b": "mac"}[name]}}}
+	case "anon_adj_a", "anon_adj_b":
+		return &pipeline.Matrix{Setup: pipeline.MatrixSetup{"": {"a"}, "os": {"linux"}},
+			Adjustments: pipeline.MatrixAdjustments{{With: pipeline.MatrixAdjustmentWith{"": "c", "os": map[string]string{"anon_adj_a": "mac", "anon_adj_b": "bsd"}[name]}}}}
 	case "list_linux":
 		return &pipeline.Matrix{Setup: pipeline.MatrixSetup{"": {"linux"}}}
 	case "dim_arch":
@@ -643,8 +659,14 @@ func c06Build(nodes []any, path string, rng *mrand.Rand) pipeline.Steps {
 					cs.Env[k] = []string{"step-" + k, "", "step-" + k}[rng.Intn(3)] // an empty value still shadows
 				}
 			}
-			if rng.Intn(3) == 0 {
+			switch rng.Intn(6) {
+			case 0, 1:
 				cs.Plugins = pipeline.Plugins{{Source: "docker#v1", Config: map[string]any{"image": "x" + p}}}
+			case 2:
+				cs.Plugins = pipeline.Plugins{} // present but empty: not for the signer to tidy up
+			}
+			if rng.Intn(5) == 0 {
+				cs.Matrix = &pipeline.Matrix{}
 			}
 			if rng.Intn(4) == 0 {
 				cs.RemainingFields = map[string]any{"agents": map[string]any{"queue": "q"}}
@@ -735,6 +757,7 @@ func runC06(args []string) {
 			if err != nil {
 				panic("driver: marshal before: " + err.Error())
 			}
+			repBefore := repDigest(steps) // the exact representation (nil vs empty, slice capacities ...), signatures set aside
 			for i, c := range pre {
 				c.Signature = stale[i]
 			}
@@ -777,7 +800,8 @@ func runC06(args []string) {
 			if err != nil {
 				panic("marshal after: " + err.Error())
 			}
-			ev["unchanged"] = string(before) == string(after)
+			// marshalled forms equal AND the objects themselves untouched (a field turned from empty to nil marshals the same)
+			ev["unchanged"] = string(before) == string(after) && repDigest(steps) == repBefore
 		})
 		ev["panic"] = p
 		if p {
